@@ -297,6 +297,12 @@ def enum_specs(draw, prof=None):
     else:
         idents = ["V%d" % i for i in range(n)]
 
+    if small and chance(draw, prof.get("raw_idents", 0.0)):
+        # raw identifiers (differential checks only: whether the name is `type` or `r#type` is not asserted anywhere)
+        k = draw(st.integers(0, n - 1))
+        raw = draw(st.sampled_from(["r#type", "r#fn", "r#match", "r#enum", "r#Self_x", "r#box", "r#async"]))
+        if raw not in idents:
+            idents[k] = raw
     # literal spellings / implicit
     lit_mode = prof["literals"]
     explicit_policy = draw(st.sampled_from(["all_explicit", "max_implicit", "mixed", "mixed"]))
@@ -410,7 +416,13 @@ def enum_specs(draw, prof=None):
             if v.get("disc") is None:
                 v["disc"] = str(val)
         variants = sorted(live, key=lambda v: (v["rename"] if v.get("rename") is not None else v["ident"]).encode("utf-8"))
-    spec = {"repr": r, "vis": draw(st.sampled_from(prof["vis"])), "ident": "E",
+    # the enum's own identifier is part of the input: single letters that generated generic code may use (B, F, I, T),
+    # names of prelude / std items, non-ASCII
+    ident = "E"
+    if chance(draw, prof.get("idents", 0.3)):
+        ident = draw(st.sampled_from(["B", "F", "I", "T", "R", "S", "A", "Item", "Iter", "Names", "Option", "Result", "Output",
+                                      "Error", "Self_", "MyEnum", "Ünï", "e_x", "Inner", "Copied", "Map"]))
+    spec = {"repr": r, "vis": draw(st.sampled_from(prof["vis"])), "ident": ident,
             "enum_attrs": enum_attrs, "variants": variants}
     if chance(draw, prof.get("repr_cfg_attr", 0.03)):
         spec["repr_via_cfg_attr"] = True
@@ -455,7 +467,9 @@ def configs(draw, spec, force=(), forbid=(), p_on=0.5, params=True, split=True, 
         else:
             chosen.append("iter")
     fixed_modes = fixed_modes or {}
-    used_names = set(m.idents) | {"E", "EIter", "ENames"}
+    eid = spec.get("ident", "E")
+    used_names = set(m.idents) | {eid, eid + "Iter", eid + "Names"}
+    fn_names = []
     feats = []
     enum_vis = spec.get("vis", "pub")
     for f in chosen:
@@ -472,9 +486,12 @@ def configs(draw, spec, force=(), forbid=(), p_on=0.5, params=True, split=True, 
         if params and f in E.FN_FEATURES:
             if chance(draw, 0.2):
                 nm = draw(st.sampled_from(["%s_x" % f.lower(), "my%s" % f.capitalize(), "f_%s" % f, "ünï_%s" % f.lower(),
-                                           "get", "%s2" % f, "__u_%s" % f.lower(), "_%s" % f.lower()]))
+                                           "get", "%s2" % f, "__u_%s" % f.lower(), "_%s" % f.lower(),
+                                           # names of methods the prelude traits bring into scope
+                                           "to_string", "to_owned", "clone", "fmt", "eq", "default", "as_ref", "cmp", "hash"]))
                 if nm not in used_names and nm not in E.ALL_FEATURES:
                     used_names.add(nm)
+                    fn_names.append(nm)
                     ps.append(["name", nm])
             if p_vis > 0 and chance(draw, p_vis):
                 cands = ["", "pub(crate)", "pub"]
@@ -484,8 +501,9 @@ def configs(draw, spec, force=(), forbid=(), p_on=0.5, params=True, split=True, 
                         cands = [""]
                 ps.append(["vis", draw(st.sampled_from(cands))])
         if params and struct_names and f in E.STRUCT_FEATURES and chance(draw, 0.2):
-            sn = draw(st.sampled_from(["My%sStruct" % f.capitalize(), "It_%s" % f, "Σ%s" % f.capitalize()]))
-            if sn not in used_names:
+            sn = draw(st.sampled_from(["My%sStruct" % f.capitalize(), "It_%s" % f, "Σ%s" % f.capitalize()] + fn_names[-1:] + ["MIN", f]))
+            # a struct (type namespace, module level) may share its name with an associated fn / const of the enum
+            if sn not in used_names or sn in fn_names:
                 used_names.add(sn)
                 ps.append(["struct_name", sn])
         if len(ps) > 1 and draw(st.booleans()):
